@@ -567,3 +567,7 @@ Proof.
   - cbn [seq_targets]. pose proof (comments_kept_op o f) as Ko. unfold res_keeps in Ko.
     destruct (apply o f) as [f1|f1|]; try discriminate; (eapply keeps_trans; [exact Ko | eapply IH; eauto]).
 Qed.
+
+Lemma comments_kept_run_ops ops f errs f' :
+  run_ops ops f = RunOk errs f' -> keeps_except (seq_targets ops f) (fsyn f) (fsyn f').
+Proof. apply comments_kept_run. Qed.
